@@ -255,7 +255,7 @@ def check(run: Run):
         lambda r: r["act"] == "Frames" and len(r["seq"]) >= 7 and r["code"] == 2,
         lambda r: r["act"] == "Frames" and len(r["seq"]) >= 5,
         lambda r: r["act"] == "GetTranslation" and len(r["ret"]["allowed"]) == 2 and len(r["seq"]) >= 7,
-        lambda r: r["act"] == "GetTranslation" and r["args"] == [True, True, False] and len(r["seq"]) == 6 and r["ret"]["diag"]["trimmed_twice"] != r["ret"]["allowed"][0],
+        lambda r: r["act"] == "GetTranslation" and r["args"][:3] == [True, True, False] and len(r["seq"]) == 6 and r["ret"]["diag"]["trimmed_twice"] != r["ret"]["allowed"][0],
         lambda r: r["act"] == "Codon" and r["ret"]["stop"] and r["code"] == 22,
         lambda r: r["act"] == "PairGetTranslation" and r["args"][:2] == [False, True],
         lambda r: r["act"] == "Sym" and r["seq"] == ["B"] and r["mt"] == "rna",
